@@ -75,6 +75,8 @@ def run(prop, tier, seed):
         for ver in "234":
             vs += corpus.covering_vectors(rnd, ver)[:: (3 if not big else 1)]
             vs += [corpus.random_vector(rnd, ver) for _ in range(nvec)]
+            vs += [(ver, (0 if s.startswith("CVSS:3.0") else 1) if ver == "3" else -1, None, s) for v_, s in corpus.coverage_vectors() if v_ == ver]
+        vs += [x[:4] for x in corpus.lookup_cover_v4(rnd)][:: (1 if big else 2)]          # TLC-generated cover of the v4 lookup table
         items += [{"op": "construct", "ver": v[0], "s": esc(v[3]), "json": True} for v in vs]
         for s in corpus.near_misses(rnd, 600 if not big else 10000) + corpus.arbitrary_text(rnd, 150 if not big else 3000):
             items.append({"op": "construct", "ver": rnd.choice("234"), "s": esc(s), "json": False})
